@@ -165,3 +165,76 @@ Section DegreeOk.
     number_of_nodes g = length (nodes_vec g).
   Proof. repeat split; reflexivity. Qed.
 End DegreeOk.
+
+(* ---- density and degree centrality (C09) ---- *)
+From Coq Require Import QArith.
+From GV Require Import Model.Derived Proofs.DerivedContent.
+
+Section DensityOk.
+  Context {T A : Type}.
+  Variable teqb : T -> T -> bool.
+  Variable tltb : T -> T -> bool.
+  Hypothesis teqb_spec : forall x y, teqb x y = true <-> x = y.
+  Hypothesis tltb_asym : forall x y, tltb x y = true -> tltb y x = false.
+  Hypothesis tltb_total : forall x y, tltb x y = false -> tltb y x = false -> x = y.
+  Notation gstate := (gstate T A).
+  Notation WF := (@WF T A teqb tltb).
+
+  (* on a single-edge graph the number of stored pairs is the number of edges *)
+  Lemma single_edge_pairs (g : gstate) :
+    WF g -> multi (sp g) = false -> length (edges g) = length (flat_map snd (edges g)).
+  Proof.
+    intros W Hm. pose proof (single_keys teqb tltb teqb_spec g W Hm) as H. cbv beta in H.
+    rewrite <- (map_length (@ekey T A) (flat_map snd (edges g))), H. unfold keys. rewrite map_length. reflexivity.
+  Qed.
+
+  (* density of a single-edge graph with n >= 2 nodes and m edges: m/(n(n-1)), doubled when undirected *)
+  Theorem density_spec (g : gstate) :
+    WF g -> multi (sp g) = false -> (2 <= length (nodes_vec g))%nat ->
+    let m := Z.of_nat (length (flat_map snd (edges g))) in
+    let n := Z.of_nat (length (nodes_vec g)) in
+    exists q, get_density g = Some q /\
+              Qeq q ((if directed (sp g) then inject_Z m else inject_Z (2 * m)%Z) / inject_Z (n * (n - 1))%Z).
+  Proof.
+    intros W Hm Hn m n. unfold get_density. rewrite (single_edge_pairs g W Hm). fold m n.
+    destruct (Z.eqb m 0) eqn:E0.
+    - apply Z.eqb_eq in E0. exists 0%Q. split; [reflexivity|]. rewrite E0.
+      destruct (directed (sp g)); simpl; unfold Qeq; simpl; lia.
+    - assert (Hnz : Z.eqb (n * (n - 1)) 0 = false).
+      { apply Z.eqb_neq. unfold n. nia. }
+      rewrite Hnz. eexists. split; [reflexivity|]. apply Qred_correct.
+  Qed.
+
+  (* degree centrality: degree / (n - 1) for n >= 2, one entry per node in node order *)
+  Theorem degree_centrality_spec (g : gstate) :
+    WF g -> (2 <= length (nodes_vec g))%nat ->
+    exists l, degree_centrality teqb tltb g = Ok l /\
+              map fst l = names g /\
+              forall x q, In (x, q) l ->
+                Qeq q (inject_Z (Z.of_nat (out_deg teqb g x + in_deg teqb g x)) /
+                       inject_Z (Z.of_nat (length (nodes_vec g)) - 1)).
+  Proof.
+    intros W Hn. unfold degree_centrality.
+    destruct (Nat.leb (length (nodes_vec g)) 1) eqn:E; [apply Nat.leb_le in E; lia|].
+    assert (Hgen : forall ns : list (node T A), (forall nd, In nd ns -> In (nname nd) (names g)) ->
+              exists l, omapM (fun nd =>
+                          do d <- get_node_degree teqb tltb g (nname nd);
+                          match d with
+                          | Some k => Ok (nname nd, Qred (inject_Z (Z.of_nat k) / inject_Z (Z.of_nat (length (nodes_vec g)) - 1)))
+                          | None => Panic "degree.rs:50"%string
+                          end) ns = Ok l /\
+                        map fst l = map nname ns /\
+                        forall x q, In (x, q) l ->
+                          Qeq q (inject_Z (Z.of_nat (out_deg teqb g x + in_deg teqb g x)) /
+                                 inject_Z (Z.of_nat (length (nodes_vec g)) - 1))).
+    { induction ns as [|nd ns IH]; intros Hin.
+      - exists []. repeat split; auto. intros x q [].
+      - cbn [omapM].
+        rewrite (get_node_degree_spec teqb tltb teqb_spec tltb_total g (nname nd) W (Hin nd (or_introl eq_refl))).
+        cbn [bind]. destruct (IH (fun n0 H0 => Hin n0 (or_intror H0))) as (l & Hl & Hf & Hq). rewrite Hl. cbn [bind].
+        eexists. split; [reflexivity|]. split; [cbn [map fst]; rewrite Hf; reflexivity|].
+        intros x q [Hx|Hx]; [|apply (Hq x q Hx)].
+        apply pair_equal_spec in Hx. destruct Hx as (Hx1 & Hx2). rewrite <- Hx1, <- Hx2. apply Qred_correct. }
+    apply Hgen. intros nd Hnd. unfold WFDefs.names. apply in_map. exact Hnd.
+  Qed.
+End DensityOk.
